@@ -83,7 +83,7 @@ let () =
              List.iter (fun op -> match toks op with
                | "P" :: p :: cs -> st := oop_put zero ch !st (nat_of_int (int_of_string p)) (group (ncomp ti) (List.map hexz cs))
                | ["G"; p; n] ->
-                 let (st', a) = get !st (nat_of_int (int_of_string n)) in
+                 let (st', a) = get !st (nat_of_int (int_of_string p)) (nat_of_int (int_of_string n)) in
                  st := st';
                  Buffer.add_string out ("g:" ^ show_comps a ^ "|")
                | ["F"] -> st := oop_finish ch !st
